@@ -296,7 +296,7 @@ func ReadFloat64(reader io.Reader) (val float64, err error) {
 
 // ReadExtendedForgeShort reads a Minecraft-style extended short from the specified {@code buf}.
 func ReadExtendedForgeShort(rd io.Reader) (int, error) {
-	ulow, err := ReadUint8(rd)
+	ulow, err := ReadUint16(rd)
 	if err != nil {
 		return 0, err
 	}
